@@ -142,6 +142,31 @@ class Engine:
         return out
 
     # -------------------------------------------------------------- PAIR
+    def is_new(self, fn: FuncInfo) -> bool:
+        """A function the rule set has never seen (not in tables/known_functions.json) and that the inliner had to leave alone."""
+        k = self.repo.known_funcs
+        return bool(k) and fn.key not in k and '<locals>' not in fn.qualname
+
+    def scope(self, fn: FuncInfo, depth: int = 3) -> list[FuncInfo]:
+        """fn plus the NEW helpers it (transitively) calls: the region a rule anchored on fn has to look at when a refactoring
+        moved part of fn into a helper that could not be inlined (e.g. called from a comprehension)."""
+        out, todo = [fn], [(fn, 0)]
+        while todo:
+            f, d = todo.pop()
+            if d >= depth:
+                continue
+            for c in calls_in(f.node):
+                for g in self.res.callees(c, f):
+                    if self.is_new(g) and g not in out:
+                        out.append(g)
+                        todo.append((g, d + 1))
+        return out
+
+    def falls_off_end(self, fn: FuncInfo) -> bool:
+        """True if the function's normal exit is reachable without passing a `return` statement (implicit `return None`)."""
+        c = self.cfg(fn)
+        return c.find_path([c.entry], lambda n: n.kind == 'exit_return', avoid=lambda n: isinstance(n.ast, ast.Return)) is not None
+
     def leak_paths(self, fn: FuncInfo, acquire: ast.AST, is_release: Callable[[Node], bool],
                    exits: Iterable[str] = ('exit_return', 'exit_raise', 'exit_cancel'),
                    handover: Callable[[Node], bool] = lambda n: False,
